@@ -9,6 +9,7 @@ EVERY schedule `ls` of the atomic operations — induction over the step relatio
 -/
 import Penguin.Model.Waker
 import Penguin.Lemmas.Waker
+import Penguin.Lemmas.MuxWake
 
 namespace Penguin.C12
 open Penguin.Waker Penguin.Lemmas.Waker
@@ -205,5 +206,40 @@ example :
     let s := run ⟨1, 1, [.ack 2]⟩ [.writer, .writer, .actor 0, .writer, .writer, .writer, .writer]
     results s = [.some] ∧ s.credit = 2 ∧ s.takes = [3] ∧ s.grants = 2 ∧ s.sent = 1 := by
   decide
+
+/-! ### The composite paths: the whole endpoint (`Lemmas/MuxWake.lean`)
+
+The scenarios above race `acknowledge` / `disallow_write` with the writer.  Whether the task CALLS
+them whenever it grants credit or closes a stream is a matter of `process_frame`, `close_flow` and
+`wind_down`; the endpoint model (`Model/Mux`, the one the correspondence harness compares with the
+real `Multiplexor`, whose wake flags are part of the comparison) covers those. -/
+
+open Penguin.Mux in
+/-- In every state an endpoint reaches — any sequence of application calls and deliveries, any peer,
+    connection ends and wind-downs included — a writer that is parked and whose waker has not been
+    woken has no credit, and its stream has not been closed for writing. -/
+theorem endpoint_parked_writer_is_blocked (o : Opts) (ops : List Mux.Op) (i : Nat) (ob : Obj)
+    (ho : (runOps { opts := o } ops).objs[i]? = some ob) (hp : ob.parked = true) (hw : ob.woken = false) :
+    ob.credit = 0 ∧ ob.finishSent = false :=
+  reachable_wakeOk o ops i ob ho hp hw
+
+open Penguin.Mux in
+/-- … so polling such a writer again returns `Pending` again: it never sleeps while it could
+    proceed or should fail. -/
+theorem endpoint_no_lost_wakeup (o : Opts) (ops : List Mux.Op) (h i : Nat) (ob : Obj) (d : Bytes)
+    (hh : (runOps { opts := o } ops).handleObj h = some (i, ob)) (hp : ob.parked = true) (hw : ob.woken = false)
+    (hd : d ≠ []) :
+    (appWrite (runOps { opts := o } ops) h d).2 = .pending := by
+  obtain ⟨hc, hf⟩ := reachable_wakeOk o ops i ob (handleObj_some hh) hp hw
+  have hde : d.isEmpty = false := by cases d <;> simp_all
+  simp [appWrite, hh, hf, hde, hc]
+
+/-! Non-vacuity: a writer parked on an exhausted window of 1 (first example); the connection then
+    ends (peer `Close`): the writer has been woken and its next poll fails (second example). -/
+private def wops : List Mux.Op :=
+  [.deliver (.msg (.frame (.connect 5 1 80 []))), .accept, .write 0 [1], .write 0 [2]]
+example : ((Mux.runOps { opts := {} } wops).objs[0]?.map (fun o => (o.parked, o.woken, o.credit))) = some (true, false, 0) := by decide
+example : ((Mux.runOps { opts := {} } (wops ++ [.deliver (.msg .close), .deliver .eof])).objs[0]?.map
+    (fun o => (o.parked, o.woken, o.finishSent))) = some (true, true, true) := by decide
 
 end Penguin.C12
